@@ -30,8 +30,8 @@ type Program struct {
 	cur        *pathCtx
 	engine     *Engine
 	deepShared *Deep
-	deep    bool // deps loaded with syntax
-	allPkgs []*packages.Package
+	deep       bool // deps loaded with syntax
+	allPkgs    []*packages.Package
 }
 
 // Func is a declared function, method or function literal of a repo package.
